@@ -36,3 +36,7 @@ Q_READ = [(24, 22), (13, 22), (0, 22), (24, 24), (5, 3), (0, 0), (1, 1)]
 HARNESSES = ([it(len0=l, ret=r, timeout=120) for l, r in Q_ITER] + [it("safety", len0=l, ret=r, timeout=120) for l, r in [(0, 24), (12, 12), (7, 17)]] +
              [rd(l, b) for l, b in Q_READ] + [rd(7, 9, failed=1)] + [rd(l, b, "safety") for l, b in [(24, 22), (13, 22), (5, 3)]] + [SKIP] +
              [it(len0=l, ret=r, timeout=300, tier="thorough") for l, r in ALL_ITER if (l, r) not in Q_ITER])
+MAIN = dict(name="main.cmd", src="C16/main.c", unwind=6, defines=["printf=verif_printf_noop"], units=["src/main.c:main,do_command,parse_command_line,mode_for_char,parse_options,init_options"], timeout=300, mem_gb=4,
+            bounds="command word of <= 3 arbitrary bytes, archive name of 1-2 arbitrary bytes, fopen success/failure, command result arbitrary",
+            stubs=["command functions (list/test/extract/print), lha_reader_new/free, lha_input_stream_from_FILE/free, lha_filter_init, fopen/fclose: recording stubs", "exit(): ends the path", "printf (help page): no-op"])
+HARNESSES.append(MAIN)
